@@ -64,6 +64,7 @@ pub struct Case {
 
 pub const FILE: &str = "out.mps.gz";
 pub const MAX_BUDGET: u64 = 449;
+pub const BIG_GRID: u64 = 3;
 
 impl LinInst {
     pub fn to_v1(&self) -> v1::Instance {
@@ -349,16 +350,27 @@ impl Prop for C18 {
         Case { inst, hash_seed: rng.next(), faults, chunk_r, chunk_w }
     }
     fn enum_plan(&self, tier: Tier, seed: u64) -> Vec<(u64, u64)> {
-        // the disk fills up after every possible byte budget 0..=MAX_BUDGET of N instances (the compressed files
-        // are 100-420 bytes long; a budget beyond the size never fires and the run is an ordinary round trip)
-        let n = match tier {
-            Tier::Quick => 12,
-            Tier::Thorough => 1000,
+        // (a) the disk fills up after every possible byte budget 0..=MAX_BUDGET of N small instances (their
+        //     compressed files are 100-420 bytes long; a budget beyond the size never fires);
+        // (b) for M big instances (compressed file > 32 KiB, so the encoder writes while the text is still being
+        //     produced) one budget inside each of the encoder's transfers. The group seed's lowest bit tells which.
+        let (n, m) = match tier {
+            Tier::Quick => (12, 150),
+            Tier::Thorough => (1000, 4000),
         };
-        (0..n).map(|i| (MAX_BUDGET + 1, crate::rng::mix(&[seed, 0xC18, i]))).collect()
+        let mut plan: Vec<(u64, u64)> = (0..n).map(|i| (MAX_BUDGET + 1, crate::rng::mix(&[seed, 0xC18, i]) & !1)).collect();
+        plan.extend((0..m).map(|i| (BIG_GRID, crate::rng::mix(&[seed, 0xB18, i]) | 1)));
+        plan
     }
     fn enum_case(&self, gs: u64, k: u64) -> Case {
         let mut rng = Rng::new(gs);
+        if gs & 1 == 1 {
+            let inst = gen_big_inst(&mut rng);
+            // the encoder reaches the disk only when its 32 KiB buffer is full: one budget inside each of those
+            // transfers (which entry of the text is being written at that moment differs from instance to instance)
+            let faults = vec![Fault { op: 0, role: FILE.into(), dir: Dir::W, at: At::Byte(k * 32768 + 1000), act: if k % 5 == 4 { Act::Eio } else { Act::Enospc } }];
+            return Case { inst, hash_seed: rng.next(), faults, chunk_r: Chunk::Whole, chunk_w: Chunk::Whole };
+        }
         let mut inst = gen_inst(&mut rng);
         inst.nonlinear = None;
         let faults = vec![Fault { op: 0, role: FILE.into(), dir: Dir::W, at: At::Byte(k), act: Act::Enospc }];
@@ -599,7 +611,7 @@ impl Prop for C18 {
     }
 
     fn rule(&self) -> String {
-        "one run = (linear instance from the seeded generator: 0-5 variables of all kinds with absent/finite/half-infinite/infinite/negative bounds, 0-4 constraints incl. constant-only, non-contiguous IDs, either sense, 10% with one nonlinear part; write-side fault plan: ENOSPC after a byte budget, EIO, EINTR, short writes, open failure; read-side plan: EIO at byte k, EINTR, short reads, open failure; chunking of every transfer; hash seed). Enumerated part: ENOSPC after every byte budget 0..=449 for each of N instances. distinct = distinct FNV hash of the event log (every simulated system call with role, size and result; digest of every API result); non-trivial = the instance has at least one term or constraint, or a fault fired".into()
+        "one run = (linear instance from the seeded generator: 0-5 variables of all kinds with absent/finite/half-infinite/infinite/negative bounds, 0-4 constraints incl. constant-only, non-contiguous IDs, either sense, 10% with one nonlinear part; write-side fault plan: ENOSPC after a byte budget, EIO, EINTR, short writes, open failure; read-side plan: EIO at byte k, EINTR, short reads, open failure; chunking of every transfer; hash seed). Enumerated part: ENOSPC after every byte budget 0..=449 for each of N small instances; one budget inside each 32 KiB transfer of the encoder for each of M big instances (compressed file > 32 KiB). distinct = distinct FNV hash of the event log (every simulated system call with role, size and result; digest of every API result); non-trivial = the instance has at least one term or constraint, or a fault fired".into()
     }
     fn assumptions(&self) -> Vec<String> {
         vec![
